@@ -88,7 +88,7 @@ def run_selftest():
         if b is None:
             continue
         hit = False
-        for bb in [b] + [x for x in prog.bodies.values() if x.kind == "Closure" and x.root == b.id]:
+        for bb in [b] + mu.closures_of(prog, b):
             for bl in bb.blocks:
                 for s in bl["stmts"]:
                     if s["s"] == "assign" and s["rv"]["k"] == "cast" and s["rv"]["ck"] == "IntToInt" and s["rv"]["op"]["o"] in ("copy", "move"):
